@@ -48,7 +48,9 @@ template <class F> Outcome guarded(F f)
     Outcome o;
     try
     {
-        o.out = f();
+        tapkee::TapkeeOutput& held = carried_output(); // see embed_api.hpp
+        held = f();
+        o.out = held;
         o.what = "ok";
     }
     catch (...)
